@@ -1,3 +1,39 @@
 import FluteModel.Drv.Fdtabs
-def main : IO Unit :=
-  Flute.Drv.runDriver ({} : Flute.Drv.Fdtabs.DState) (fun st args => Flute.Drv.Fdtabs.step st args)
+/-
+  Driver of engine `fdtabs`.  Same line protocol as `Flute.Drv.runDriver`; additionally everything a step writes after a
+  TAB is a side channel (today: `SCHED-DIVERGE ...`, the cross-model differential with agent sched's scheduler model): it is
+  printed on stderr and makes the driver exit with code 3 - a note in the evidence of the check, never a compared line.
+-/
+open Flute.Drv Flute.Drv.Fdtabs
+
+partial def loop (hin hout herr : IO.FS.Stream) (st : DState) (side : Nat) : IO Nat := do
+  let line ← hin.getLine
+  if line.isEmpty then return side
+  let l := line.trimAscii.toString
+  match l.splitOn " " with
+  | "case" :: _ =>
+    hout.putStrLn l
+    loop hin hout herr {} side
+  | _ :: args =>
+    let (st', out) := step st args
+    match out.splitOn "\t" with
+    | [o] => hout.putStrLn o; loop hin hout herr st' side
+    | o :: rest =>
+      hout.putStrLn o
+      herr.putStrLn ("\t".intercalate rest)
+      loop hin hout herr st' (side + 1)
+    | [] => hout.putStrLn out; loop hin hout herr st' side
+  | [] =>
+    hout.putStrLn "bad-op"
+    loop hin hout herr st side
+
+def main : IO UInt32 := do
+  let hin ← IO.getStdin
+  let hout ← IO.getStdout
+  let herr ← IO.getStderr
+  let side ← loop hin hout herr {} 0
+  hout.flush
+  if side > 0 then
+    herr.putStrLn s!"{side} side-channel line(s) (scheduler-model differential)"
+    return 3
+  return 0
